@@ -388,6 +388,12 @@ func runC14(t *testing.T, rng *rand.Rand, rec *sim.Rec, tier string, caseNo int)
 	probes := 0
 	probe := func() bool {
 		probes++
+		if probes%3 == 1 {
+			// somebody sends the client's socket an empty datagram (a stray packet, a port scan, a
+			// keep-alive of another protocol): it is nothing, least of all the end of anything
+			rc.Conn.Inject(nil, &net.UDPAddr{IP: net.IPv4(10, 9, 9, 9).To4(), Port: 9})
+			rec.Ev("empty-datagrams-to-the-client-socket")
+		}
 		for i, p := range peers {
 			if rng.Intn(3) == 0 && i > 0 {
 				continue
